@@ -15,6 +15,7 @@ from contracts import c_inference as CI
 from contracts.spec import PS, PSK
 from pyvc import logic as L
 from pyvc.logic import LCnd, LInt, LLCnd, LLInt, check_valid
+from pyvc.values import StrSort
 
 
 def _prove(name, obligations, exclude=()):
@@ -169,6 +170,8 @@ LEMMAS = {
     "lenGLsk": lambda: lemma_lenGLs(PSK, LInt, LLInt, (z3.Const("val_l", z3.ArraySort(L.Int, L.Cnd)),), "k"),
     "mem.snoc.Int": lambda: lemma_mem_snoc(L.Int),
     "mem.nil.Int": lambda: lemma_mem_nil(L.Int),
+    "mem.snoc.Str": lambda: lemma_mem_snoc(StrSort),
+    "mem.nil.Str": lambda: lemma_mem_nil(StrSort),
     "Zmono": lemma_Zmono,
     "Zshrink": lemma_Zshrink,
 }
